@@ -291,6 +291,10 @@ def _lrepr_py_tuple(o: tuple, **kwargs: Unpack[PrintSettings]) -> str:
 
 @lrepr.register(complex)
 def _lrepr_complex(o: complex, **_) -> str:
+    if o.real == 0:
+        # Only imaginary literals can be read; a negative zero real part makes Python
+        # print "(-0-1.5j)", which is not a number literal.
+        return repr(complex(0.0, o.imag)).upper()
     return repr(o).upper()
 
 
